@@ -292,21 +292,26 @@ def mon_C13(run):
     cap = 0
     polls_by_it = {p["it"]: p for p in run.polls}
     kprev = int(uo.get("init_mesh_size_integer", 0))
+    expand = int(uo.get("search_mesh_expand", 0) or 0) > 0   # documented option: a successful search round may enlarge the mesh (up to the cap)
     for it, pr in enumerate(run.probes):
         pol = polls_by_it.get(it)
         k = pr["k"]
         if pol is None:
-            if k != kprev:
+            if k != kprev and not (expand and k > kprev):
                 run.v("C13", "mesh size changed outside a poll step", "mesh-changed-outside-poll", (it, kprev, k))
         else:
-            if pol["k0"] != kprev:
+            if pol["k0"] != kprev and not (expand and pol["k0"] > kprev):
                 run.v("C13", "mesh size changed outside a poll step", "mesh-changed-before-poll", (it, kprev, pol["k0"]))
-            if pol.get("k1") is not None and pol["k1"] != k:
+            if pol.get("k1") is not None and pol["k1"] != k and not (expand and k > pol["k1"]):
                 run.v("C13", "mesh size changed outside a poll step", "mesh-changed-after-poll", (it, pol["k1"], k))
         if k > cap:
             run.v("C13", "mesh size above the cap", "mesh-above-cap", k)
         if pr["mesh"] != 2.0 ** k:
-            run.v("C13", "mesh size is not the power of two of its exponent", "mesh-not-pow2", (pr["mesh"], k))
+            # with search_mesh_expand the exponent is raised after a successful search round and the mesh *size* is recomputed
+            # from it at the top of the next loop pass: at the probe the size may still be the smaller power of two
+            lg = np.log2(pr["mesh"]) if pr["mesh"] > 0 else np.nan
+            if not (expand and np.isfinite(lg) and float(lg).is_integer() and lg <= k):
+                run.v("C13", "mesh size is not the power of two of its exponent", "mesh-not-pow2", (pr["mesh"], k))
         if pr["smesh"] > pr["mesh"]:
             run.v("C13", "search mesh exceeds poll mesh", "search-mesh-larger", (pr["smesh"], pr["mesh"]))
         kprev = k
